@@ -282,21 +282,38 @@ func stringContents(c *engine.Ctx, fds []protoreflect.FieldDescriptor) {
 	gen.Full(full, "A", 2)
 	slots := gen.StringSlots(full, 2)
 	menu := gen.NearStrings()
-	c.Bound("string-contents", fmt.Sprintf("%d string-valued places (nested to depth 2) x all %d ordered pairs of a %d-entry near-string menu", len(slots), len(menu)*len(menu), len(menu)))
+	var pairs [][2]string
+	for i := range menu {
+		for j := range menu {
+			pairs = append(pairs, [2]string{menu[i], menu[j]})
+		}
+	}
+	nMenuPairs := len(pairs)
+	// every word-like literal of the library's sources against its own case variants and padded / prefixed forms
+	lits, _ := gen.Literals()
+	for _, l := range lits {
+		if len(l) > 16 || strings.ContainsAny(l, "%\\\"`") {
+			continue
+		}
+		for _, v := range []string{strings.ToLower(l), strings.ToUpper(l), l + " ", "x" + l} {
+			if v != l {
+				pairs = append(pairs, [2]string{l, v})
+			}
+		}
+	}
+	c.Bound("string-contents", fmt.Sprintf("%d string-valued places (nested to depth 2) x (all %d ordered pairs of a %d-entry near-string menu + %d pairs of a source literal with a case variant / padded / prefixed form of itself)", len(slots), nMenuPairs, len(menu), len(pairs)-nMenuPairs))
 	for si := range slots {
 		if slots[si].Label == "id" {
 			continue // the key, not an attribute
 		}
-		for i := range menu {
-			for j := range menu {
-				si, i, j := si, i, j
-				c.Case(func() any { return map[string]any{"place": slots[si].Label, "first": menu[i], "second": menu[j]} }, func(t *engine.T) *engine.Violation {
-					n1, n2 := proto.Clone(full).(*sbom.Node), proto.Clone(full).(*sbom.Node)
-					slots[si].Set(n1.ProtoReflect(), menu[i])
-					slots[si].Set(n2.ProtoReflect(), menu[j])
-					return diffCase(t, fds, n1, n2, fmt.Sprintf("str|%s|%d|%d", slots[si].Label, i, j))
-				})
-			}
+		for pi := range pairs {
+			si, pi := si, pi
+			c.Case(func() any { return map[string]any{"place": slots[si].Label, "first": pairs[pi][0], "second": pairs[pi][1]} }, func(t *engine.T) *engine.Violation {
+				n1, n2 := proto.Clone(full).(*sbom.Node), proto.Clone(full).(*sbom.Node)
+				slots[si].Set(n1.ProtoReflect(), pairs[pi][0])
+				slots[si].Set(n2.ProtoReflect(), pairs[pi][1])
+				return diffCase(t, fds, n1, n2, fmt.Sprintf("str|%s|%d", slots[si].Label, pi))
+			})
 		}
 	}
 }
